@@ -143,7 +143,11 @@ class SingleRun:
             lg.addHandler(self.log)
             lg.setLevel(logging.INFO) if lg.level == logging.NOTSET or lg.level > logging.INFO else None
             lg.propagate = False
-        self.opt = spec.build_optimizer(trace, self.params, pt2=pt2)
+        try:
+            self.opt = spec.build_optimizer(trace, self.params, pt2=pt2)
+        except BaseException:
+            self.close()
+            raise
         self.log.take()
         self.counters = [0] * len(trace["groups"])
         self.blocks: list[list[BlockRef]] = []
@@ -194,7 +198,8 @@ class SingleRun:
                 p.grad = None
             else:
                 seed, kind, scale = g
-                p.grad = spec.make_grad(tuple(spec_p["shape"]), p.dtype, seed, kind, scale)
+                # (the gradient of a parameter kept in another memory layout has that layout too, as autograd produces it)
+                p.grad = spec.apply_layout(spec.make_grad(tuple(spec_p["shape"]), p.dtype, seed, kind, scale), spec_p.get("perm"))
 
     def group_present(self, gi: int, ev: dict) -> bool:
         return any(ev["g"][pi] is not None for pi in self.trace["groups"][gi]["params"])
@@ -211,6 +216,13 @@ class SingleRun:
                 self.event_index = ei
                 op = ev["op"]
                 if op == "step":
+                    if self.left_sane_range():
+                        # a blown-up trajectory (|w| beyond 1e12 or non-finite with finite, O(1) gradients): the oracles' error
+                        # models say nothing there (overflow, underflow of roots, chaotic amplification) - the run ends without
+                        # a verdict on the remaining steps
+                        self.probes["ended_by_divergence"] += 1
+                        self.ended_naturally = True
+                        break
                     self.set_grads(ev)
                     for o in self.oracles:
                         o.pre_step(self, ei, ev)
@@ -251,6 +263,15 @@ class SingleRun:
         finally:
             self.final_digest = self._digest()
             self.close()
+
+    SANE_LIMIT = 1e12
+
+    def left_sane_range(self) -> bool:
+        for p in self.params:
+            d = p.detach()
+            if d.numel() and not bool(torch.isfinite(d).all() and d.abs().max() <= self.SANE_LIMIT):
+                return True
+        return False
 
     def _digest(self) -> str:
         import hashlib
@@ -768,7 +789,9 @@ class BlockingOracle(Oracle):
                     )
                 # merged shape recovered from the block strides
                 b0 = blocks[0]
-                if b0.block.dim() > 0 and p.numel() > 0:
+                if p.dim() >= 2 and not p.is_contiguous():
+                    run.probes["noncontiguous_param_blocked"] += 1  # (stride analysis below presumes the row-major layout)
+                elif b0.block.dim() > 0 and p.numel() > 0:
                     st = list(b0.block.stride())
                     if any(list(b.block.stride()) != st for b in blocks):
                         raise run.violation("merge_not_adjacent_or_over_limit", gi, note="blocks disagree on strides", **ctx)
